@@ -131,7 +131,7 @@ func HEapOversize() {
 // Params: attribute index of the received attribute, two attribute indices to add.
 func HMarshalDeterministicDecoded() {
 	r, a1, a2 := VAkaAttrs[vr.Param(0)], VAkaAttrs[vr.Param(1)], VAkaAttrs[vr.Param(2)]
-	w := VRefEncodeAka(1, vr.U8(), vr.U8(), []VRefAkaAttr{{Type: uint8(r), Value: VGenAkaValue(r, -1)}})
+	w := VRefEncodeAka(1, vr.U8(), vr.U8(), []VRefAkaAttr{{Type: VRefAkaNum(r), Value: VGenAkaValue(r, -1)}})
 	d := new(EAP)
 	vr.Assert("c14.detdec.unmarshal", d.Unmarshal(w) == nil)
 	a, ok := d.EapTypeData.(*EapAkaPrime)
